@@ -19,6 +19,11 @@
              and of all OTHER keys are compared with the symbolic [c_open] (AR, AF) resp.
              judged by the verified monitors [tamper_ok], [open_uses_ok] (AT).
    - Keys:   KEK uses at creation and at each of several reopens.
+   - Backup: the server's periodic backup task run for several minutes of virtual time on a
+             database opened with the counting key, the key service failing in the later
+             rounds: key uses and uploads per round against the model's HBackup step.
+   - Long:   one process doing some 2100 successful saves, the key service failing during
+             the middle third: key uses at the end, failures, final state against the model.
    - Mode:   permission bits of secret-bearing files at creation (temporary of the database
              from the strace trace, client cache file and directory). *)
 From Coq Require Import List Bool NArith.
@@ -63,10 +68,19 @@ Inductive akind := AR | AF | AT.
    writing of the attempt's bytes) created, removed or modified by the attempt *)
 Inductive att := At (k : akind) (out : option N) (given others side : N).
 
+(* one minute of the server's periodic backup task (server.VerifRunPeriodicBackup, fake object
+   store, virtual clock): was the key service down, did a write precede the round, did that write fail, how often was
+   the key-encryption key used during the minute (writes and the task together), how many
+   uploads succeeded, and was what was uploaded byte for byte the database file of that moment *)
+Inductive bround := BR (key_down wrote put_failed : bool) (kek_uses uploads : N) (body_is_file : bool).
+
 Inductive case :=
 | Hist (steps : list hobs)
 | Opens (orig : disk_dump) (dumps : list disk_dump) (atts : list att)
 | Keys (at_create : N) (at_reopens : list N)
+| Backup (at_create : N) (rounds : list bround)
+| Long (cycles : N) (at_create uses_end : N) (failed_down failed_up : N) (gen_end : N)
+       (final : disk_dump) (dumps : list disk_dump) (right foreign : att)
 | Mode (k : fkind) (m : N).
 
 Definition kek : N := 7.
@@ -163,6 +177,52 @@ Definition expected_mode_ok (k : fkind) (m : N) : bool :=
   | FCacheDir => m =? 448                     (* 0700 *)
   end.
 
+(* ---- the backup task: the model's HBackup step copies the file and uses no key ---- *)
+Definition bround_ok (b : bround) : bool :=
+  let '(BR down wrote put_failed uses ups same) := b in
+  let c := fst (c_create kek dek 0) in
+  let f := first_file c 0 in
+  (* one write (if any) and one backup round, from any state: the model's key uses *)
+  let h := (if wrote then [HCall okenv su (OPut [97] 1) 0] else []) ++ [HBackup] in
+  let '(files, _, u) := run_terms kek c (db_create V) f h in
+  negb put_failed                               (* the write itself succeeds, key service up or down *)
+  && (uses =? u)                                   (* 0: neither the write nor the task asks the key service *)
+  && (ups =? (if wrote then 1 else 0))          (* a changed database is uploaded - key service up or DOWN *)
+  && (if wrote then same else true).            (* and what goes out is the file as it is (the model's [f]) *)
+
+(* ---- volume: [cycles] times (put a new version, activate it, delete the previous one) in one
+   process, the key service failing during the middle third ---- *)
+Definition nameA : name := [97].
+Fixpoint long_ops (n : nat) (v : N) : list (DB.op V) :=
+  match n with
+  | O => []
+  | S n' => OPut nameA (1 + v mod 2) :: OActivate nameA (v + 2) :: ODelVer nameA (v + 1) :: long_ops n' (v + 1)
+  end.
+Fixpoint long_run (s : dbstate V) (ops : list (DB.op V)) (failures : N) : dbstate V * N :=
+  match ops with
+  | [] => (s, failures)
+  | o :: rest => let '(s', r, _) := db_step N.eqb okenv s su o in
+                 long_run s' rest (failures + (if res_class r =? 0 then 0 else 1))
+  end.
+Definition long_hist (n : nat) : list hstep :=
+  map (fun o => HCall okenv su o 0) (OPut nameA 2 :: long_ops n 0).
+
+(* the API dump of an open attempt has no counters *)
+Definition drop_latest (d : disk_dump) : disk_dump := map (fun '(n, vs, a, _) => (n, vs, a, 0)) d.
+
+Definition check_long (cycles at_create uses_end failed_down failed_up gen_end : N)
+           (final : disk_dump) (dumps : list disk_dump) (right foreign : att) : bool :=
+  let n := N.to_nat cycles in
+  let '(m, mf) := long_run (db_create V) (OPut nameA 2 :: long_ops n 0) 0 in
+  let c := fst (c_create kek dek 0) in
+  let '(_, _, u) := run_terms kek c (db_create V) (first_file c 0) (long_hist n) in
+  (at_create =? snd (c_create kek dek 0))
+  && (uses_end =? at_create + u)                 (* u = 0: no save, however many, uses the key *)
+  && (failed_down + failed_up =? mf)             (* mf = 0: every write succeeds, key service down or not *)
+  && (gen_end =? gen m)
+  && disk_beq (disk_of (kv m)) final
+  && att_ok (drop_latest final) dumps right && att_ok (drop_latest final) dumps foreign.
+
 Definition check (c : case) : bool :=
   match c with
   | Hist steps => let c := fst (c_create kek dek 0) in run_hist c (db_create V) (first_file c 0) steps
@@ -170,6 +230,9 @@ Definition check (c : case) : bool :=
   | Keys a bs => (a =? snd (c_create kek dek 0)) && forallb (fun b => b =? snd (c_open kek sym_file)) bs
                  && negb (match bs with [] => true | _ => false end)
   | Mode k m => expected_mode_ok k m
+  | Backup a rounds => (a =? snd (c_create kek dek 0)) && forallb bround_ok rounds
+                       && negb (match rounds with [] => true | _ => false end)
+  | Long cy a ue fd fu g final dumps r f => check_long cy a ue fd fu g final dumps r f
   end.
 
 (* compact constructor for generated terms *)
